@@ -16,6 +16,15 @@
 //! of the object and is not re-initialised): `rows1`/`flat1` are copied after the first call,
 //! `rows2`/`flat2` after the second.
 //!
+//!   fw_big <[wi n warcs]>   =>  panic | <ncells> <finite> <diag> <flatfinite> <bfm>
+//!
+//! `fw_big` is the sparse observation for orders above 1024 (a full matrix would be millions of
+//! tokens): `ncells = dist.dist.len()`; `finite` = every `[u v d]`, `u != v`, with
+//! `dist[(u, v)] != isize::MAX` (pair index, row-major order); `diag` = every `[u d]` with
+//! `dist[(u, u)] != 0`; `flatfinite` = every `[idx d]` of the flat vector with `d != isize::MAX`
+//! off the diagonal; `bfm` = for every source `s` WITH out-arcs the finite entries `[s v d]`
+//! (`v != s`) of the real `BellmanFordMoore` row, or `[s none]`.
+//!
 //! `isize::MAX` / `usize::MAX` are printed as the atom `inf`.
 #![allow(clippy::all)]
 
@@ -90,6 +99,55 @@ pub fn eval(op: &str, args: &[V]) -> Option<Vec<V>> {
             }
             Some(out)
         }
+        "fw_big" => {
+            let [d] = args else { return None };
+            let desc = Desc::parse(d)?;
+            if desc.repr != "wi" {
+                return None;
+            }
+            let digraph = desc.build_wi();
+            let n = desc.order();
+            let mut fw = FloydWarshall::new(&digraph);
+            let dist = fw.distances();
+            let mut finite = vec![];
+            let mut diag = vec![];
+            for u in 0..n {
+                for v in 0..n {
+                    let x = dist[(u, v)];
+                    if u == v {
+                        if x != 0 {
+                            diag.push(V::L(vec![V::u(u), ent(x)]));
+                        }
+                    } else if x != isize::MAX {
+                        finite.push(V::L(vec![V::u(u), V::u(v), V::i(x)]));
+                    }
+                }
+            }
+            let mut flat = vec![];
+            for (idx, &x) in dist.dist.iter().enumerate() {
+                if x != isize::MAX && idx / n != idx % n {
+                    flat.push(V::L(vec![V::u(idx), V::i(x)]));
+                }
+            }
+            let mut sources: Vec<usize> = desc.arcs.iter().map(|&(u, _)| u).collect();
+            sources.sort_unstable();
+            sources.dedup();
+            let mut bfm = vec![];
+            for s in sources {
+                let mut b = BellmanFordMoore::new(&digraph, s);
+                match b.distances() {
+                    None => bfm.push(V::L(vec![V::u(s), V::none()])),
+                    Some(r) => {
+                        for (v, &x) in r.iter().enumerate() {
+                            if v != s && x != isize::MAX {
+                                bfm.push(V::L(vec![V::u(s), V::u(v), V::i(x)]));
+                            }
+                        }
+                    }
+                }
+            }
+            Some(vec![V::u(dist.dist.len()), V::L(finite), V::L(diag), V::L(flat), V::L(bfm)])
+        }
         _ => None,
     }
 }
@@ -155,7 +213,7 @@ fn scale_large(rng: &mut Rng, n: usize, arcs: &mut BTreeMap<(usize, usize), i64>
 fn gen_large_order(rng: &mut Rng, n: usize) -> BTreeMap<(usize, usize), i64> {
     let p: Vec<i64> = (0..n).map(|_| rng.range(0, 3)).collect();
     let mut arcs = BTreeMap::new();
-    let mut add = |rng: &mut Rng, u: usize, v: usize, arcs: &mut BTreeMap<(usize, usize), i64>| {
+    let add = |rng: &mut Rng, u: usize, v: usize, arcs: &mut BTreeMap<(usize, usize), i64>| {
         if u != v {
             let _ = arcs.insert((u, v), rng.range(0, 6) + p[u] - p[v]);
         }
@@ -197,6 +255,150 @@ fn gen_large_order(rng: &mut Rng, n: usize) -> BTreeMap<(usize, usize), i64> {
     arcs
 }
 
+const MAXI: i128 = isize::MAX as i128;
+const H: i128 = MAXI / 2; // 2^62 - 1
+
+/// All walk weights of a DAG given as arcs `lo -> hi` in a topological numbering `topo`
+/// lie between the minimum and maximum path weight of each pair; returns true when every one of
+/// them is within `-(MAX-1) ..= MAX-1`, i.e. every sum any of the algorithms can form fits an
+/// `isize` and is not the sentinel.
+fn dag_sums_fit(n: usize, topo: &[usize], arcs: &BTreeMap<(usize, usize), i128>) -> bool {
+    // pos[v] = position of v in the topological order
+    let mut pos = vec![0; n];
+    for (i, &v) in topo.iter().enumerate() {
+        pos[v] = i;
+    }
+    for s in 0..n {
+        let mut lo: Vec<Option<i128>> = vec![None; n];
+        let mut hi: Vec<Option<i128>> = vec![None; n];
+        lo[s] = Some(0);
+        hi[s] = Some(0);
+        for &u in topo {
+            let (Some(l), Some(h)) = (lo[u], hi[u]) else { continue };
+            for (&(a, b), &w) in arcs.range((u, 0)..(u + 1, 0)) {
+                debug_assert!(a == u && pos[b] > pos[u]);
+                let (nl, nh) = (l + w, h + w);
+                if nl.abs() > MAXI - 1 || nh.abs() > MAXI - 1 {
+                    return false;
+                }
+                lo[b] = Some(lo[b].map_or(nl, |x| x.min(nl)));
+                hi[b] = Some(hi[b].map_or(nh, |x| x.max(nh)));
+            }
+        }
+    }
+    true
+}
+
+/// BOUNDARY-SUM family: a chain whose leg weights add up to the largest representable finite
+/// distances (`MAX-1`, `MAX-2`, `2^62`, `2^62 ± 1`, …; legs `H, H`, `H-k, k, H`, `H+k, -k, H`, both
+/// signs), vertex labels permuted (so that every split point becomes the first one tried), plus a
+/// few small side arcs and isolated vertices.  It is a DAG: every walk is a path, and
+/// `dag_sums_fit` guarantees that every sum the code can form fits.
+fn gen_boundary(rng: &mut Rng) -> (usize, BTreeMap<(usize, usize), i128>) {
+    let k = i128::from(rng.range(1, 9));
+    let k2 = i128::from(rng.range(1, 9));
+    let p62: i128 = 1 << 62;
+    let legs: Vec<i128> = match rng.below(16) {
+        0 => vec![H, H],
+        1 => vec![H - k, k, H],
+        2 => vec![H, H - k, k],
+        3 => vec![H + k, -k, H],
+        4 => vec![H, H, -k],
+        5 => vec![H - k, k, H, -k2],
+        6 => vec![H, H - 1],               // MAX - 2
+        7 => vec![H - k, H, k - 1],        // MAX - 2
+        8 => vec![p62 / 2, p62 / 2],       // exactly 2^62
+        9 => vec![p62 - k, k],
+        10 => vec![p62 + k, -k],
+        11 => vec![H, 2],                  // 2^62 + 1
+        12 => vec![H - k, k - 1],          // 2^62 - 2
+        13 => vec![k, H, H - k],           // MAX - 1 with the big legs last
+        14 => vec![MAXI - 1 - k, k],       // one leg almost MAX
+        _ => vec![H - k, k, H - k2, k2],
+    };
+    let legs: Vec<i128> = if rng.chance(1, 3) { legs.iter().map(|w| -w).collect() } else { legs };
+    let m = legs.len() + 1;
+    let extra = rng.below(3);
+    let n = m + extra;
+    let mut topo: Vec<usize> = (0..n).collect();
+    rng.shuffle(&mut topo);
+    let mut arcs: BTreeMap<(usize, usize), i128> = BTreeMap::new();
+    for (i, &w) in legs.iter().enumerate() {
+        let _ = arcs.insert((topo[i], topo[i + 1]), w);
+    }
+    debug_assert!(dag_sums_fit(n, &topo, &arcs));
+    // small forward side arcs (skipping at least one chain vertex), kept only while the sums fit
+    for _ in 0..rng.below(3) {
+        let i = rng.below(n);
+        let j = rng.below(n);
+        if i + 1 < j && !arcs.contains_key(&(topo[i], topo[j])) {
+            let w = i128::from(rng.range(-9, 9));
+            let _ = arcs.insert((topo[i], topo[j]), w);
+            if !dag_sums_fit(n, &topo, &arcs) {
+                let _ = arcs.remove(&(topo[i], topo[j]));
+            }
+        }
+    }
+    (n, arcs)
+}
+
+fn show_wide(op: &str, rng: &mut Rng, n: usize, arcs: &BTreeMap<(usize, usize), i128>) -> String {
+    let mut list: Vec<((usize, usize), i128)> = arcs.iter().map(|(&k, &w)| (k, w)).collect();
+    rng.shuffle(&mut list);
+    let d = Desc {
+        repr: "wi".to_string(),
+        verts: (0..n).collect(),
+        arcs: list.iter().map(|&(k, _)| k).collect(),
+        weights: list.iter().map(|&(_, w)| w).collect(),
+    };
+    format!("{op} {}", d.to_v())
+}
+
+fn gen_boundary_stream(rng: &mut Rng, count: usize, emit: &mut dyn FnMut(String)) {
+    for i in 0..count {
+        let (n, arcs) = gen_boundary(rng);
+        let op = if i % 5 == 4 { "fw_dist2" } else { "fw_dist" };
+        emit(show_wide(op, rng, n, &arcs));
+    }
+}
+
+/// Very sparse digraphs (<= 20 arcs) of order 1025..1100 and 2049..2060 with arcs into / through
+/// the vertices at the block boundaries 1023, 1024, 1025, 2048, 2049 — observed sparsely
+/// (`fw_big`).  Potentials keep them free of negative circuits.
+fn gen_big_sparse(rng: &mut Rng, emit: &mut dyn FnMut(String)) {
+    let n = if rng.chance(2, 3) { 1025 + rng.below(76) } else { 2049 + rng.below(12) };
+    let mut special: Vec<usize> = vec![0, 1, 1023, 1024, n - 1];
+    for &x in &[1025usize, 1026, 2047, 2048, 2049, 2050] {
+        if x < n {
+            special.push(x);
+        }
+    }
+    let pick = |rng: &mut Rng, special: &Vec<usize>| -> usize {
+        if rng.chance(2, 3) { *rng.pick(special) } else { rng.below(n) }
+    };
+    let mut pot: BTreeMap<usize, i64> = BTreeMap::new();
+    let mut arcs: BTreeMap<(usize, usize), i64> = BTreeMap::new();
+    // a path that passes THROUGH a boundary vertex, then random arcs among the special vertices
+    let b = *rng.pick(&special[2..]);
+    let mut chain = vec![pick(rng, &special), b, pick(rng, &special), pick(rng, &special)];
+    chain.dedup();
+    let narcs = 6 + rng.below(13);
+    let mut pairs: Vec<(usize, usize)> = chain.windows(2).map(|w| (w[0], w[1])).collect();
+    while pairs.len() < narcs {
+        pairs.push((pick(rng, &special), pick(rng, &special)));
+    }
+    for (u, v) in pairs {
+        if u == v {
+            continue;
+        }
+        let pu = *pot.entry(u).or_insert_with(|| rng.range(0, 4));
+        let pv = *pot.entry(v).or_insert_with(|| rng.range(0, 4));
+        let _ = arcs.insert((u, v), rng.range(0, 9) + pu - pv);
+    }
+    debug_assert!(arcs.len() <= 20);
+    emit(show_op("fw_big", rng, n, &arcs));
+}
+
 /// Orders around the row lengths 64 / 128 (first ten, quick tier) and 192 / 256 (thorough, stress).
 const LARGE: [usize; 15] = [64, 129, 63, 128, 65, 100, 127, 130, 60, 96, 192, 256, 257, 255, 193];
 
@@ -228,7 +430,7 @@ fn gen_beyond(rng: &mut Rng, n_large_w: usize, n_twice: usize, orders: &[usize],
 
 fn gen_n(rng: &mut Rng) -> usize {
     let r = rng.below(100);
-    if r < 14 {
+    if r < 21 {
         1
     } else if r < 60 {
         2 + rng.below(5)
@@ -336,6 +538,10 @@ pub fn gen(rng: &mut Rng, thorough: bool, emit: &mut dyn FnMut(String)) {
     if crate::stress() {
         // search mode: the most discriminating cheap cases first (negative arcs + unreachable
         // pairs + large values), then repeated calls, then large orders, then the ordinary stream
+        gen_boundary_stream(rng, 2_000, emit);
+        for _ in 0..40 {
+            gen_big_sparse(rng, emit);
+        }
         exhaustive(rng, 3, &[-2, -1, 1, 3], emit);
         let orders: Vec<usize> = (0..60).map(|i| LARGE[i % LARGE.len()]).collect();
         gen_beyond(rng, 3_000, 2_000, &orders, emit);
@@ -363,11 +569,16 @@ pub fn gen(rng: &mut Rng, thorough: bool, emit: &mut dyn FnMut(String)) {
     }
     // (3) beyond the ordinary distribution: weights 2^40..2^61, two calls on one object,
     //     sparse digraphs of order 60..130
+    // (4) boundary sums (largest representable finite distances) and orders above 1024
+    gen_boundary_stream(rng, if thorough { 1_500 } else { 160 }, emit);
+    for _ in 0..(if thorough { 120 } else { 100 }) {
+        gen_big_sparse(rng, emit);
+    }
     if thorough {
         let orders: Vec<usize> = (0..150).map(|i| LARGE[i % LARGE.len()]).collect();
         gen_beyond(rng, 1_500, 1_500, &orders, emit);
     } else {
-        let orders: Vec<usize> = (0..80).map(|i| LARGE[i % 10]).collect();
+        let orders: Vec<usize> = (0..110).map(|i| LARGE[i % 10]).collect();
         gen_beyond(rng, 150, 120, &orders, emit);
     }
 }
